@@ -66,7 +66,30 @@ func isStringField(f string) bool {
 }
 
 // obs performs the observation sweep and emits one "obs" event.
+// dirtyProbe: an object of the collection's type in which every field holds something (no zero value anywhere, nested
+// structure allocated, maps and slices of the payload populated).
+func (r *Runner) dirtyProbe() sod.Object {
+	v := Vals{"K": 7, "S": 2 * CaseMul, "A": 5, "U": 2, "F": 6, "N": 2 * CaseMul, "T": 4, "E": 3, "PX": 4, "PY": 2 * CaseMul, "Pn": 0,
+		"Z": 2, "V": idxInt(uniV, 2), "W": 2 * CaseMul, "O": 3, "R": 3 * CaseMul, "Y": 4}
+	rec := buildRec(v, 3+r.obsN%4)
+	if rec.M == nil {
+		rec.M = map[string][]*Sub{}
+	}
+	rec.M["dirty"] = []*Sub{{X: 77}}
+	return fromRec(rec, r.cfg.Plain)
+}
+
+// prefilled: every second sweep hands the Assign* calls a target that already holds something (a slice reused from an
+// earlier call, defaults): what comes back must be the answer and nothing else.
+func prefilled[T any](r *Runner, junk T) []T {
+	if r.obsN%2 == 1 {
+		return []T{junk, junk}
+	}
+	return nil
+}
+
 func (r *Runner) obs(afterFail, light bool) {
+	r.obsN++
 	r.recs, r.recIdx = []Vals{}, map[string]int{}
 	e := r.obsBody(afterFail, light)
 	e["recs"] = r.recs
@@ -79,14 +102,14 @@ func (r *Runner) assignAll() (out [][]interface{}, err error) {
 	out = [][]interface{}{}
 	add := func(o sod.Object) { out = append(out, []interface{}{r.slotOf(o.UUID()), r.recID(o)}) }
 	if r.cfg.Plain {
-		var t []*RecPlain
+		t := prefilled(r, &RecPlain{})
 		if err = r.db.AssignAll(r.proto(), &t); err == nil {
 			for _, o := range t {
 				add(o)
 			}
 		}
 	} else {
-		var t []*Rec
+		t := prefilled(r, &Rec{})
 		if err = r.db.AssignAll(r.proto(), &t); err == nil {
 			for _, o := range t {
 				add(o)
@@ -141,6 +164,10 @@ func (r *Runner) obsBody(afterFail, light bool) ev {
 		one("g1", func() (sod.Object, error) { in := r.proto(); in.Initialize(u); return r.db.Get(in) })
 		one("gu", func() (sod.Object, error) { return r.db.GetByUUID(r.proto(), u) })
 		one("g2", func() (sod.Object, error) { in := r.proto(); in.Initialize(u); return r.db.Get(in) })
+		// the object handed to Get only says which object is wanted: a stale copy, or one that holds other values
+		// (fields the file omits, map entries), is refreshed - nothing of it shows in the answer
+		one("gd", func() (sod.Object, error) { in := r.dirtyProbe(); in.Initialize(u); return r.db.Get(in) })
+		one("gv", func() (sod.Object, error) { return r.db.GetByUUID(r.dirtyProbe(), u) })
 		in := r.proto()
 		in.Initialize(u)
 		ok, err := r.db.Exist(in)
@@ -262,14 +289,14 @@ func (r *Runner) assignIndex(f string) (codes []int, c string, ok bool) {
 	var err error
 	switch f {
 	case "K":
-		var t []int64
+		t := prefilled(r, int64(77))
 		if err = r.db.AssignIndex(proto, path, &t); err == nil {
 			for _, v := range t {
 				codes = append(codes, idxI64(uniK, v))
 			}
 		}
 	case "A", "PX", "O":
-		var t []int
+		t := prefilled(r, 77)
 		if err = r.db.AssignIndex(proto, path, &t); err == nil {
 			for _, v := range t {
 				switch f {
@@ -283,35 +310,42 @@ func (r *Runner) assignIndex(f string) (codes []int, c string, ok bool) {
 			}
 		}
 	case "U":
-		var t []uint64
+		t := prefilled(r, uint64(77))
 		if err = r.db.AssignIndex(proto, path, &t); err == nil {
 			for _, v := range t {
 				codes = append(codes, idxU64(uniU, v))
 			}
 		}
 	case "F":
-		var t []float64
+		t := prefilled(r, 77.5)
 		if err = r.db.AssignIndex(proto, path, &t); err == nil {
 			for _, v := range t {
 				codes = append(codes, idxF64(uniF, v))
 			}
 		}
+	case "Y":
+		t := prefilled(r, float32(77.5))
+		if err = r.db.AssignIndex(proto, path, &t); err == nil {
+			for _, v := range t {
+				codes = append(codes, idxF32(uniY, v))
+			}
+		}
 	case "E":
-		var t []int32
+		t := prefilled(r, int32(77))
 		if err = r.db.AssignIndex(proto, path, &t); err == nil {
 			for _, v := range t {
 				codes = append(codes, idxI32(uniE, v))
 			}
 		}
 	case "T":
-		var t []time.Time
+		t := prefilled(r, time.Unix(77, 0))
 		if err = r.db.AssignIndex(proto, path, &t); err == nil {
 			for _, v := range t {
 				codes = append(codes, idxT(uniT, v))
 			}
 		}
 	case "S", "N", "Z":
-		var t []string
+		t := prefilled(r, "junk")
 		if err = r.db.AssignIndex(proto, path, &t); err == nil {
 			for _, v := range t {
 				switch f {
